@@ -285,6 +285,8 @@ class MsgGen:
                 continue
             if t.ftype in (FT_TZTIMEONLY, FT_TZTIMESTAMP):
                 continue
+            if t.group and not (FT_INT <= m.fields.get(t.fnum, (FT_INT, ""))[0] <= FT_END_INT):
+                continue        # count field whose generated class is not int (FIX44 604): has_group_count is UB
             if t.mandatory or t.fnum == first or rng.random() < p:
                 chosen[t.fnum] = t
         # MessageBase::decode pairs a Length field (other than BodyLength) with the token that
